@@ -1267,7 +1267,7 @@ def run(ctx):
                               csv_row={kk: v for kk, v in row.items() if v != ''})
             add('csvonly', f'csv_s eqp{k} margin{k} {qlit(pdbm_of(r2))} {jlit(r2)}', sc, r2['response-id'], r2, row,
                 csv_skips(r2, k))
-    lines = common.coq_eval('C19', 'Prelude Model.Response Run.C19', terms, per_file=25, prelude=eqp_prelude())
+    lines = common.coq_eval('C19', 'Prelude Model.Response Run.C19', terms, per_file=60, prelude=eqp_prelude())
     for m, line in zip(meta, lines):
         kind, sc = m[0], m[1]
         if kind == 'resp':
